@@ -79,6 +79,8 @@ func (g *GcsEmu) Register(mux *http.ServeMux) {
 
 // Handler handles emulated GCS http requests for "storage.googleapis.com".
 func (g *GcsEmu) Handler(w http.ResponseWriter, r *http.Request) {
+	verifPoint("Handler.start", r)
+	defer verifPoint("Handler.end", r)
 	baseUrl := dontNeedUrls
 	{
 		host := requestHost(r)
@@ -209,6 +211,8 @@ func (g *GcsEmu) handleGcsCompose(ctx context.Context, baseUrl HttpBaseUrl, w ht
 	}
 	var obj *storage.Object
 	if err := g.locks.Run(ctx, lockName(bucket, dst.filename), func(_ context.Context) error {
+		defer verifPoint("write.done", g.store, bucket, dst.filename)
+		verifPoint("write.locked", g.store, bucket, dst.filename)
 		var err error
 		obj, err = g.finishCompose(baseUrl, bucket, dst, srcs, req.Destination)
 		return err
@@ -250,6 +254,8 @@ func (g *GcsEmu) handleGcsListBucket(ctx context.Context, baseUrl HttpBaseUrl, w
 
 func (g *GcsEmu) handleGcsDelete(ctx context.Context, w http.ResponseWriter, bucket string, filename string, conds cloudstorage.Conditions) {
 	err := g.locks.Run(ctx, lockName(bucket, filename), func(ctx context.Context) error {
+		defer verifPoint("write.done", g.store, bucket, filename)
+		verifPoint("write.locked", g.store, bucket, filename)
 		// Find the existing file / meta.
 		obj, err := g.store.GetMeta(dontNeedUrls, bucket, filename)
 		if err != nil {
@@ -259,6 +265,7 @@ func (g *GcsEmu) handleGcsDelete(ctx context.Context, w http.ResponseWriter, buc
 		if err := validateConds(obj, conds); err != nil {
 			return err
 		}
+		verifPoint("write.afterCheck", g.store, bucket, filename)
 
 		if err := g.store.Delete(bucket, filename); err != nil {
 			if os.IsNotExist(err) {
@@ -266,6 +273,7 @@ func (g *GcsEmu) handleGcsDelete(ctx context.Context, w http.ResponseWriter, buc
 			}
 			return fmt.Errorf("failed to delete %s/%s: %w", bucket, filename, err)
 		}
+		verifPoint("write.afterStore", g.store, bucket, filename)
 
 		return nil
 	})
@@ -278,6 +286,7 @@ func (g *GcsEmu) handleGcsDelete(ctx context.Context, w http.ResponseWriter, buc
 }
 
 func (g *GcsEmu) handleGcsMediaRequest(baseUrl HttpBaseUrl, w http.ResponseWriter, acceptEncoding, bucket, filename string) {
+	verifPoint("read.start", g.store, bucket, filename)
 	obj, contents, err := g.store.Get(baseUrl, bucket, filename)
 	if err != nil {
 		g.gapiError(w, http.StatusInternalServerError, fmt.Sprintf("failed to check existence of %s/%s: %s", bucket, filename, err))
@@ -353,6 +362,8 @@ func (g *GcsEmu) handleGcsMetadataRequest(baseUrl HttpBaseUrl, w http.ResponseWr
 func (g *GcsEmu) handleGcsUpdateMetadataRequest(ctx context.Context, baseUrl HttpBaseUrl, w http.ResponseWriter, r *http.Request, bucket, filename string, conds cloudstorage.Conditions) {
 	var obj *storage.Object
 	err := g.locks.Run(ctx, lockName(bucket, filename), func(ctx context.Context) error {
+		defer verifPoint("write.done", g.store, bucket, filename)
+		verifPoint("write.locked", g.store, bucket, filename)
 		// Find the existing file / meta.
 		var err error
 		obj, err = g.store.GetMeta(baseUrl, bucket, filename)
@@ -367,6 +378,7 @@ func (g *GcsEmu) handleGcsUpdateMetadataRequest(ctx context.Context, baseUrl Htt
 		if err := validateConds(obj, conds); err != nil {
 			return err
 		}
+		verifPoint("write.afterCheck", g.store, bucket, filename)
 
 		// Update via json decode.
 		metagen := obj.Metageneration
@@ -378,6 +390,7 @@ func (g *GcsEmu) handleGcsUpdateMetadataRequest(ctx context.Context, baseUrl Htt
 		if err := g.store.UpdateMeta(bucket, filename, obj, metagen+1); err != nil {
 			return fmt.Errorf("failed to update attrs of %s/%s: %w", bucket, filename, err)
 		}
+		verifPoint("write.afterStore", g.store, bucket, filename)
 
 		return nil
 	})
@@ -392,6 +405,7 @@ func (g *GcsEmu) handleGcsUpdateMetadataRequest(ctx context.Context, baseUrl Htt
 	}
 
 	// Respond with the updated metadata.
+	verifPoint("write.beforeRespRead", g.store, bucket, filename)
 	obj, err = g.store.GetMeta(baseUrl, bucket, filename)
 	if err != nil {
 		g.gapiError(w, http.StatusInternalServerError, fmt.Sprintf("failed to get meta for %s/%s: %s", bucket, filename, err))
@@ -421,11 +435,14 @@ func (g *GcsEmu) handleGcsCopy(ctx context.Context, baseUrl HttpBaseUrl, w http.
 	// Must lock the destination object.
 	var obj *storage.Object
 	err := g.locks.Run(ctx, lockName(b2, f2), func(ctx context.Context) error {
+		defer verifPoint("write.done", g.store, b2, f2)
+		verifPoint("write.locked", g.store, b2, f2)
 		if ok, err := g.store.Copy(b1, f1, b2, f2); err != nil {
 			return err
 		} else if !ok {
 			return nil // file missing
 		} else {
+			verifPoint("write.afterStore", g.store, b2, f2)
 			obj, err = g.store.GetMeta(baseUrl, b2, f2)
 			return err
 		}
@@ -649,6 +666,8 @@ func (g *GcsEmu) finishUpload(ctx context.Context, baseUrl HttpBaseUrl, obj *sto
 	obj.Md5Hash = md5Hash
 
 	err := g.locks.Run(ctx, lockName(bucket, filename), func(ctx context.Context) error {
+		defer verifPoint("write.done", g.store, bucket, filename)
+		verifPoint("write.locked", g.store, bucket, filename)
 		// Find the existing file / meta.
 		existing, err := g.store.GetMeta(baseUrl, bucket, filename)
 		if err != nil {
@@ -658,6 +677,7 @@ func (g *GcsEmu) finishUpload(ctx context.Context, baseUrl HttpBaseUrl, obj *sto
 		if err := validateConds(existing, conds); err != nil {
 			return err
 		}
+		verifPoint("write.afterCheck", g.store, bucket, filename)
 
 		if existing != nil {
 			obj.TimeCreated = existing.TimeCreated
@@ -666,12 +686,14 @@ func (g *GcsEmu) finishUpload(ctx context.Context, baseUrl HttpBaseUrl, obj *sto
 		if err := g.store.Add(bucket, filename, contents, obj); err != nil {
 			return fmt.Errorf("failed to create %s/%s: %w", bucket, filename, err)
 		}
+		verifPoint("write.afterStore", g.store, bucket, filename)
 		return nil
 	})
 
 	if err != nil {
 		return nil, err
 	}
+	verifPoint("write.beforeRespRead", g.store, bucket, filename)
 
 	// respond with object metadata
 	meta, err := g.store.GetMeta(baseUrl, bucket, filename)
@@ -807,12 +829,14 @@ func (g *GcsEmu) finishCompose(baseUrl HttpBaseUrl, bucket string, dst composeOb
 	if err := validateConds(dstMeta, dst.conds); err != nil {
 		return nil, err
 	}
+	verifPoint("write.afterCheck", g.store, bucket, dst.filename)
 	if dstMeta != nil {
 		meta.TimeCreated = dstMeta.TimeCreated
 	}
 	if err := g.store.Add(bucket, dst.filename, data, meta); err != nil {
 		return nil, fmt.Errorf("failed to add new file: %w", err)
 	}
+	verifPoint("write.afterStore", g.store, bucket, dst.filename)
 	return g.store.GetMeta(baseUrl, bucket, dst.filename)
 }
 
